@@ -50,6 +50,22 @@ Round 4 (input shapes / aliasing / sibling classes / conventions between modules
   * history ops `twin` (a second object of the same class between the reads) and `scribble` (in-place edit of
     what an earlier read returned), period kind `unsorted`, magnitudes; integer altitudes everywhere;
     `branch:*` counters for every branch listed in the header of the round-4 section.
+
+Round 6 (a bound put on ONE of several quantities linked by a relation of the statement, the partner left alone):
+  class: floor / ceiling / clamp added to (or removed from, or moved on) a DERIVED output - diffuse = global -
+  direct*sin(alt) in zhang_huang_solar_split and its consumer Wea.from_zhang_huang_solar, global / direct horizontal
+  / reflected / total in the Wea, DISC's Kn, the clearness indices, the capped air mass - visible only in the
+  region where the unbounded value CROSSES the bound.  Added: generator `gen_bound_rows` (thin air 30..65 kPa,
+  jumping weather, low to middle sun; gen_pressure reaches 30 kPa); the Lean model (not the code) decides which
+  candidates lie in the region (`_zh_bound_active`, `_wea_zh_active`), all of those are kept: counters
+  `bound:zh_split:dhi<0`, `bound:zh_split_corr:*`, `bound:wea_zhang_huang:dhi<0`; `closure_zh` asks BOTH variants of
+  the split on every such series; `wea_zh` now carries the statement itself (dni >= 0, dhi + dni*sin(alt) =
+  zhang_huang_solar at altitudes dated here) next to the sibling comparison, on a thin-air stratum; Weas holding
+  negative diffuse values (what the split returns there) through closure / upward surface / total = sum;
+  `bound:*` counters for every clamp of the DISC / DIRINT chain (kt > 1, sin(alt) < min_sin, air mass > max, Kn < 0,
+  kt' above its maximum), decided from the numbers.  Lean: C10_bound_on_one_summand (a floor / ceiling on one
+  summand keeps x + y = g iff the bound is inactive, else off by the clipped amount), C10_zh_split_dhi_floor (model:
+  dhi < 0 iff dni*sin(alt) > ghi; flooring dhi alone keeps closure iff dhi >= 0), C10_rebalanced_floor.
 """
 import json
 import math
@@ -231,7 +247,7 @@ def gen_alt(rng, up=None):
 
 
 def gen_pressure(rng):
-    return rng.choice([101325.0, 101325, rng.uniform(55000, 108000), 80000.0])
+    return rng.choice([101325.0, 101325, rng.uniform(55000, 108000), 80000.0, rng.uniform(30000, 65000)])
 
 
 def gen_weather(rng):
@@ -266,6 +282,29 @@ def gen_day_series(rng, n=None):
         pres.append(p0 if rng.random() < 0.8 else gen_pressure(rng))
         dew.append(rng.uniform(-30, 28))
     return alts, ghi, [doy] * n, pres, dew
+
+
+def gen_bound_rows(rng, n=None):
+    """Rows (alt, doy, cc, rh, T, T-3h, wind, pressure) of a Zhang-Huang series aimed at the region where a
+    DERIVED quantity of the DISC / DIRINT chain crosses one of its bounds (round 6): thin air (30..65 kPa, the
+    stations above ~4000 m), a sky that changes a lot from one step to the next (cloud cover / temperature jumps:
+    high stability index), low to middle sun.  There the Perez coefficient is large, DNI*sin(alt) exceeds the
+    Zhang-Huang global value and diffuse = global - direct horizontal is NEGATIVE; at very low sun / small global
+    values DISC's Kn is negative (clamped), the clearness indices sit on their bounds 0 / 1 and the air mass on 12."""
+    n = n or rng.choice([1, 2, 3, 3, 4, 6, 8])
+    p = rng.choice([rng.uniform(30000, 65000), rng.uniform(30000, 65000), 58000, 30000.0, rng.uniform(30000, 108000)])
+    doy = rng.randrange(1, 367)
+    rows = []
+    for _ in range(n):
+        a = rng.choice([rng.uniform(3.0, 90.0), rng.uniform(15.0, 40.0), rng.uniform(15.0, 40.0),
+                        rng.choice([3.0001, 3.5, 3.727, 4.0, 5.0, 10.0, 20.0, 20.0001, 35.0, 35.0001, -1.0])])
+        cc = rng.choice([0, 0, 1, 2, 5, 8, 10, rng.uniform(0, 10)])
+        rh = rng.choice([1, 20, 80, 100, rng.uniform(1, 100)])
+        t = rng.uniform(-35, 45)
+        t3 = t + rng.choice([0, rng.uniform(-8, 8), -8, 8, 3, -3])
+        ws = rng.choice([0, 8, rng.uniform(0, 25)])
+        rows.append([a, doy, cc, rh, t, t3, ws, p if rng.random() < 0.9 else rng.uniform(30000, 108000)])
+    return rows
 
 
 def gen_locations(rng):
@@ -372,6 +411,25 @@ def _collide(rng, cases, frac=0.12):
             out.append(tuple(c[:j]) + (other[j],) + tuple(c[j + 1:]))
         out.append(c)
     return out
+
+
+def _zh_bound_active(ctx, cases):
+    """For Zhang-Huang split cases (use_disc, rows of 9 numbers incl. dew point): does the MODEL (Lean driver, not
+    the code under test) put a NEGATIVE diffuse value on some step - i.e. is the case in the region where a floor
+    on the derived output would be active?  None per case when the driver cannot be asked."""
+    try:
+        lines = ['zhsplit %s %d %s' % (_b(c[0]), len(c[1]), ' '.join(fb(x) for r in c[1] for x in r)) for c in cases]
+        outs = ctx.driver().run(lines)
+        res = []
+        for o in outs:
+            if not o.startswith('ok'):
+                res.append(None)
+                continue
+            v = [unb(t) for t in o.split()[1:]]
+            res.append(any(x is not None and x < 0 for x in v[1::2]))
+        return res
+    except Exception:
+        return [None] * len(cases)
 
 
 # ---------------------------------------------------------------------------------------------
@@ -576,6 +634,12 @@ def correspondence(ctx):
             cc, rh, t, t3, ws = gen_weather(rng)
             rows.append((a, d, cc, rh, t, t3, ws, p, dew_point_from_db_rh(t, rh)))
         cases.append((rng.random() < 0.4, rows))
+    # round 6: the region where a derived quantity crosses a bound (negative diffuse value, clamped Kn / kt / kt')
+    bound_cases = []
+    for _ in range(N(260, 3000)):
+        rows = [tuple(r) + (dew_point_from_db_rh(r[4], r[3]),) for r in gen_bound_rows(rng)]
+        bound_cases.append((rng.random() < 0.3, rows))
+    cases += bound_cases
 
     def zs_line(c):
         return 'zhsplit %s %d %s' % (_b(c[0]), len(c[1]), ' '.join(fb(x) for r in c[1] for x in r))
@@ -587,6 +651,9 @@ def correspondence(ctx):
         return [[a, b] for a, b in zip(dn, dh)]
 
     cmp_batch(ctx, 'zhsplit', cases, zs_line, zs_impl)
+    for c, act in zip(cases, _zh_bound_active(ctx, cases)):
+        if act is not None:
+            ctx.count('bound:zh_split_corr:%s:%s' % ('disc' if c[0] else 'dirint', 'dhi<0' if act else 'dhi>=0'))
 
     # --- illuminance
     cases = []
@@ -829,13 +896,18 @@ def _check_basic(op, inp):
     if op == 'closure_zh':
         rows = inp['rows']
         cols = list(zip(*rows))
-        dn, dh = sm.zhang_huang_solar_split(*[list(c) for c in cols], inp['use_disc'])
-        for r, a, b in zip(rows, dn, dh):
-            g = sm.zhang_huang_solar(r[0], r[2], r[3], r[4], r[5], r[6])
-            if not _rel(g, b + a * math.sin(math.radians(r[0]))):
-                return {'required': 'ghi = dhi + dni*sin(alt) = %r' % g,
-                        'observed': b + a * math.sin(math.radians(r[0])),
-                        'sig': {'clause': 'closure', 'where': 'zhang_huang_split'}}
+        for ud in ([False, True] if inp.get('both') else [inp['use_disc']]):
+            dn, dh = sm.zhang_huang_solar_split(*[list(c) for c in cols], ud)
+            if not (len(dn) == len(dh) == len(rows)):
+                return {'required': '%d pairs' % len(rows), 'observed': (len(dn), len(dh)),
+                        'sig': {'clause': 'closure', 'where': 'zhang_huang_split_length'}}
+            for i, (r, a, b) in enumerate(zip(rows, dn, dh)):
+                g = sm.zhang_huang_solar(r[0], r[2], r[3], r[4], r[5], r[6])
+                if not _rel(g, b + a * math.sin(math.radians(r[0]))):
+                    return {'required': 'ghi = dhi + dni*sin(alt) = %r at step %d (use_disc=%r; dni %r, dhi %r, '
+                            'altitude %r, pressure %r)' % (g, i, ud, a, b, r[0], r[7]),
+                            'observed': b + a * math.sin(math.radians(r[0])),
+                            'sig': {'clause': 'closure', 'where': 'zhang_huang_split'}}
         return None
     if op in ('closure_wea', 'surface_wea'):
         wea = _build_wea(inp['wea'])
@@ -2726,6 +2798,21 @@ def _check_wea_zh(inp):
     want = sm.zhang_huang_solar_split(alts, doys, list(inp['cc'])[:n], list(inp['rh'])[:n], t, t3,
                                       list(inp['ws'])[:n], p, inp['use_disc'])
     want = [list(want[0]), list(want[1])]
+    # round 6: the statement itself on the Wea's two columns, evaluated without the split: direct normal never
+    # negative and diffuse + direct*sin(altitude) = the Zhang-Huang global value of the step (also where the
+    # diffuse value is negative: thin air, jumping weather)
+    if len(got[0]) == n and len(got[1]) == n:
+        cc_, rh_, ws_ = list(inp['cc'])[:n], list(inp['rh'])[:n], list(inp['ws'])[:n]
+        for i in range(n):
+            g = sm.zhang_huang_solar(alts[i], cc_[i], rh_[i], t[i], t3[i], ws_[i])
+            clo = got[1][i] + got[0][i] * math.sin(math.radians(alts[i]))
+            if not _rel(g, clo, 1e-9, 1e-7):
+                return {'required': 'dhi + dni*sin(alt) = zhang_huang_solar = %r at step %d (altitude %r, '
+                        'pressure %r)' % (g, i, alts[i], p[i]), 'observed': clo,
+                        'sig': dict(sigd, clause='closure')}
+            if got[0][i] < 0:
+                return {'required': 'dni >= 0 at step %d' % i, 'observed': got[0][i],
+                        'sig': dict(sigd, clause='nonneg')}
     for c in range(2):
         if len(got[c]) != n:
             return {'required': '%d values' % n, 'observed': len(got[c]), 'sig': dict(sigd, clause='length')}
@@ -2737,17 +2824,47 @@ def _check_wea_zh(inp):
     return None
 
 
-def _gen_wea_zh(rng):
+def _wea_zh_active(ctx, cands):
+    """Which `wea_zh` inputs lie in the region where the split's diffuse value is negative on some step - decided
+    by the Lean model on arguments assembled here (sun altitudes dated by the harness), not by the code under test."""
+    from ladybug.psychrometrics import dew_point_from_db_rh
+    cases = []
+    for inp in cands:
+        ts, leap, n = inp['timestep'], bool(inp['leap']), inp['ndays'] * 24 * inp['timestep']
+        moy0 = (_doy(inp['month'], inp['day'], leap) - 1) * 1440
+        moys = [moy0 + i * 60 // ts for i in range(n)]
+        t = list(inp['t'])[:n]
+        pr = [101325] * n if inp['pres'] is None else list(inp['pres'])[:n]
+        cases.append((bool(inp['use_disc']),
+                      [(_sun_at(tuple(inp['loc']), leap, moys[i])[0], moys[i] // 1440 + 1, inp['cc'][i], inp['rh'][i],
+                        t[i], t[i - 3 * ts], inp['ws'][i], pr[i], dew_point_from_db_rh(t[i], inp['rh'][i]))
+                       for i in range(n)]))
+    return _zh_bound_active(ctx, cases)
+
+
+def _gen_wea_zh(rng, thin=False):
     lat, lon, tz = rng.choice(gen_locations(rng))
     leap = rng.random() < 0.4
     ts = rng.choice([1, 1, 2, 3])
     nd = rng.choice([1, 2])
+    if thin:
+        # round 6: a station in thin air (30..62 kPa) under a sky that jumps from step to step - the region
+        # where the diffuse value derived from global and direct is negative
+        ts, nd = rng.choice([1, 1, 2]), 1
+        month, day = rng.randrange(1, 13), rng.randrange(1, 28)
+        n = 24 * ts
+        ws = [gen_bound_rows(rng, 1)[0] for _ in range(n)]
+        pr = rng.uniform(30000, 62000)
+        return {'loc': [lat, lon, tz], 'leap': leap, 'timestep': ts, 'ndays': nd, 'month': month, 'day': day,
+                'cc': [w[2] for w in ws], 'rh': [w[3] for w in ws], 't': [w[4] for w in ws],
+                'ws': [w[6] for w in ws], 'pres': [pr] * n, 'use_disc': rng.random() < 0.15}
     month, day = rng.choice([(12, 30), (2, 28), (rng.randrange(1, 13), rng.randrange(1, 27))])
     n = nd * 24 * ts
     ws = [gen_weather(rng) for _ in range(n)]
     return {'loc': [lat, lon, tz], 'leap': leap, 'timestep': ts, 'ndays': nd, 'month': month, 'day': day,
             'cc': [w[0] for w in ws], 'rh': [w[1] for w in ws], 't': [w[2] for w in ws], 'ws': [w[4] for w in ws],
-            'pres': None if rng.random() < 0.4 else [rng.uniform(60000, 105000) for _ in range(n)],
+            'pres': None if rng.random() < 0.35 else [rng.uniform(60000, 105000) for _ in range(n)]
+            if rng.random() < 0.5 else [rng.uniform(30000, 62000)] * n,
             'use_disc': rng.random() < 0.5}
 
 
@@ -2806,6 +2923,27 @@ def _count_branches(ctx, op, c):
                 hit('disc:pressure_%s' % ('none' if p is None else 'given'))
                 kt = ghi / (_spencer(doy, 1370.) * max(math.sin(math.radians(alt)), min_sin))
                 hit('disc_kn:kt%s0.6' % ('<=' if min(max(kt, 0), 1) <= 0.6 else '>'))
+                # round 6: which of the bounds of the chain is ACTIVE on this input (decided from the numbers)
+                ctx.count('bound:clearness_index:kt%s1' % ('>' if kt > 1 else '<='))
+                ctx.count('bound:clearness_index:sin_alt%smin_sin' % ('<' if math.sin(math.radians(alt)) < min_sin
+                                                                      else '>='))
+                kt = min(max(kt, 0), 1)
+                z = 90.0 - alt
+                am = 1.0 / (math.cos(math.radians(z)) + 0.15 * (93.885 - z) ** -1.253)
+                if p is not None:
+                    am = am * p / 101325.0
+                ctx.count('bound:disc_kn:airmass%smax' % ('>' if am > _mx else '<='))
+                am = min(am, _mx)
+                if kt <= 0.6:
+                    a_, b_, c_ = (0.512 - 1.56 * kt + 2.286 * kt ** 2 - 2.222 * kt ** 3, 0.37 + 0.962 * kt,
+                                  -0.28 + 0.932 * kt - 2.048 * kt ** 2)
+                else:
+                    a_, b_, c_ = (-5.743 + 21.77 * kt - 27.49 * kt ** 2 + 11.56 * kt ** 3,
+                                  41.4 - 118.5 * kt + 66.05 * kt ** 2 + 31.9 * kt ** 3,
+                                  -47.01 + 184.2 * kt - 222.0 * kt ** 2 + 73.81 * kt ** 3)
+                kn = (0.866 - 0.122 * am + 0.0121 * am ** 2 - 0.000653 * am ** 3 + 1.4e-05 * am ** 4) - \
+                    (a_ + b_ * math.exp(c_ * am))
+                ctx.count('bound:disc:kn%s0' % ('<' if kn < 0 else '>='))
         elif op == 'dirint':
             ud, hd, _ms, _ma, ghi, alts = c[0], c[1], c[2], c[3], c[4], c[5]
             hit('dirint:delta_%s' % ('on' if ud else 'off'))
@@ -2821,6 +2959,9 @@ def _count_branches(ctx, op, c):
                                          else 'unknown_name'))
         elif op == 'ktp':
             hit('kt_prime:airmass_%s' % ('none' if c[1] is None else 'given'))
+            if c[1]:
+                raw = c[0] / (1.031 * math.exp(-1.4 / (0.9 + 9.4 / c[1])) + 0.1)
+                ctx.count('bound:kt_prime:%s' % ('above_max' if raw > c[2] else 'below_0' if raw < 0 else 'inside'))
         elif op == 'absam':
             hit('absolute_airmass:%s' % ('none' if c[0] is None else 'given'))
         elif op == 'dirirr':
@@ -2974,6 +3115,17 @@ def _oracle_cases(ctx):
             cc, rh, t, t3, ws = gen_weather(rng)
             rows.append([a, d, cc, rh, t, t3, ws, p])
         yield 'closure_zh', {'rows': rows, 'use_disc': rng.random() < 0.5}
+    # round 6: series aimed at the region where the derived diffuse value is negative (a floor on it alone would
+    # be active there); the Lean model says which candidates are in the region: all of those are kept, and a
+    # share of the others; both variants of the split are asked on every kept series
+    from ladybug.psychrometrics import dew_point_from_db_rh
+    cand = [gen_bound_rows(rng) for _ in range(2400 if big else 900)]
+    act = _zh_bound_active(ctx, [(False, [tuple(r) + (dew_point_from_db_rh(r[4], r[3]),) for r in rows])
+                                 for rows in cand]) if ctx.driver_ok else [None] * len(cand)
+    for k, (rows, a) in enumerate(zip(cand, act)):
+        if a or k % 3 == 0:
+            ctx.count('bound:zh_split:%s' % ('unknown' if a is None else 'dhi<0' if a else 'dhi>=0'))
+            yield 'closure_zh', {'rows': rows, 'use_disc': False, 'both': True}
     for _ in range(60 if big else 24):
         spec = _wea_spec(rng)
         yield 'closure_wea', {'wea': spec}
@@ -2985,6 +3137,17 @@ def _oracle_cases(ctx):
         yield 'surface_wea', {'wea': spec, 'surface': [90, 0, 0.2, True]}
         yield 'surface_wea', {'wea': spec, 'surface': [0, 0, 0.2, True], 'face_all': True, 'face_limit': 12}
         yield 'illum_wea', {'wea': spec, 'dew': rng.uniform(-30, 28)}
+        if rng.random() < 0.5:
+            # round 6: a Wea holding what the Zhang-Huang split really returns in thin air - NEGATIVE diffuse values
+            # by day (and direct values at night): global < direct horizontal, global < 0; the relations of the
+            # statement hold there as everywhere, a bound on one derived quantity alone does not
+            neg = dict(spec, dhr=[-rng.uniform(0, 200) if rng.random() < 0.4 else v for v in spec['dhr']],
+                       dnr=[0.0 if rng.random() < 0.2 else v for v in spec['dnr']])
+            ctx.count('bound:wea:negative_diffuse_values')
+            yield 'closure_wea', {'wea': neg}
+            yield 'surface_wea', {'wea': neg, 'surface': [90, 0, rng.choice([0.2, rng.random()]), rng.random() < 0.6]}
+            yield 'surface_wea', {'wea': neg, 'surface': [rng.uniform(-90, 90), rng.uniform(0, 360), rng.random(),
+                                                          rng.random() < 0.5]}
     # histories on one object: reads in any order and repeated, every setter, refused operations in between
     n_hist = 500 if not ctx.quick else 150 if big else 70
     for _ in range(n_hist):
@@ -3021,6 +3184,12 @@ def _oracle_cases(ctx):
         inp = _gen_wea_zh(rng)
         ctx.count('branch:wea_zhang_huang:pressure_%s' % ('none' if inp['pres'] is None else 'given'))
         yield 'wea_zh', inp
+    cand = [_gen_wea_zh(rng, thin=True) for _ in range(600 if big else 300)]
+    act = _wea_zh_active(ctx, cand) if ctx.driver_ok else [None] * len(cand)
+    for k, (inp, a) in enumerate(zip(cand, act)):
+        if a or k % 8 == 0:
+            ctx.count('bound:wea_zhang_huang:%s' % ('unknown' if a is None else 'dhi<0' if a else 'dhi>=0'))
+            yield 'wea_zh', inp
     # rare day numbers / solar constants of the extraterrestrial irradiance, one by one
     for doy in [1, 2, 59, 60, 61, 365, 366, 100.5, 365.99] + [rng.randrange(1, 367) for _ in range(40)]:
         yield 'extra_day', {'doy': doy, 'sc': rng.choice([1366.1, 1366.1, 1355, 1000.0])}
